@@ -40,6 +40,11 @@ type recorder struct {
 	dbl   bool // release of an item that is not held
 	items []item
 	cur   map[any]int // ammo object -> item number (acquisition order)
+	// ammo values the instances cannot tell apart (nil, zero values, one object for all items): the item is then identified
+	// by the instance that holds it, and the value handed to Shoot / Release must be the one Acquire returned
+	indistinct bool
+	held       map[int]int // instance -> the item it holds
+	vals       []any       // indistinct: the value of each item
 	ctl   *ctl
 	loose bool // race-detector runs: real operations happen outside mu, the log is only counted (not replayed)
 	// fine-grained mode (instrumented worker): instances that are inside a schedule call of the logging wrapper
@@ -55,7 +60,7 @@ type recorder struct {
 }
 
 func newRecorder() *recorder {
-	return &recorder{mu: &sync.Mutex{}, tids: map[int64]int{}, lids: map[int]int{}, cur: map[any]int{}, inCall: map[int]bool{}}
+	return &recorder{mu: &sync.Mutex{}, tids: map[int64]int{}, lids: map[int]int{}, cur: map[any]int{}, inCall: map[int]bool{}, held: map[int]int{}}
 }
 
 // tid: instances are numbered in the order of their first operation. Call with mu held.
@@ -91,15 +96,36 @@ func (r *recorder) logf(format string, a ...any) {
 func (r *recorder) acquired(t int, a any) int {
 	k := len(r.items)
 	r.items = append(r.items, item{holder: t})
+	if r.indistinct {
+		r.held[t] = k
+		r.vals = append(r.vals, a)
+		return k
+	}
 	r.cur[a] = k
 	return k
+}
+
+// itemOf: the item an ammo value stands for when instance t uses it. Call with mu held.
+func (r *recorder) itemOf(t int, a any, release bool) (int, bool) {
+	if r.indistinct {
+		k, ok := r.held[t]
+		if !ok || r.vals[k] != a {
+			return 0, false
+		}
+		if release {
+			delete(r.held, t)
+		}
+		return k, true
+	}
+	k, ok := r.cur[a]
+	return k, ok
 }
 
 const unknownItem = 999999
 
 // used: a Shoot of ammo object a by instance t. Call with mu held.
 func (r *recorder) used(t int, a any) int {
-	k, ok := r.cur[a]
+	k, ok := r.itemOf(t, a, false)
 	if !ok {
 		r.uar = true
 		return unknownItem
@@ -119,7 +145,7 @@ func (r *recorder) stillHeld(t int, k int) {
 
 // released: a Release of ammo object a. Call with mu held.
 func (r *recorder) released(t int, a any) int {
-	k, ok := r.cur[a]
+	k, ok := r.itemOf(t, a, true)
 	if !ok {
 		r.dbl = true
 		return unknownItem
